@@ -73,7 +73,9 @@ def matrix(dud, drv, base, R):
     k = 0
     for args, uses_prepare in SUBCOMMANDS:
         for where in ("root", "sub"):
-            for outcome in ("ok", "fail", "prelocked"):
+            for outcome in ("ok", "fail", "prelocked", "profile-unwritable", "trace-unwritable"):
+                if outcome.endswith("unwritable") and args[0] not in ("status", "commit", "run"):
+                    continue
                 k += 1
                 root, env = mkproject(dud, base, "m%d" % k)
                 with open(os.path.join(root, "s.yaml"), "w") as f:
@@ -96,6 +98,14 @@ def matrix(dud, drv, base, R):
                             f.write("does-not-exist.yaml\n")
                 if outcome == "prelocked":
                     open(os.path.join(root, ".dud", "lock"), "w").close()
+                if outcome.endswith("unwritable"):
+                    # the profile / trace output cannot be written (disk full): the command fails at the very end
+                    flag = "--profile" if outcome.startswith("profile") else "--trace"
+                    for d_ in (root, cwd):
+                        target = os.path.join(d_, "dud.pprof" if flag == "--profile" else "dud.trace")
+                        if not os.path.lexists(target):
+                            os.symlink("/dev/full", target)
+                    a = [flag] + a
                 p = subprocess.run([dud] + a, cwd=cwd, env=env, stdout=subprocess.PIPE, stderr=subprocess.PIPE, timeout=60)
                 left = os.path.exists(os.path.join(root, ".dud", "lock"))
                 body_ok = outcome == "ok"
@@ -113,7 +123,7 @@ def matrix(dud, drv, base, R):
                             name, p.returncode, p.stderr.decode(errors="replace")[-120:])))
                     if body_ok and p.returncode != 0 and not left:
                         viol.append(("healthy-failed", "%s exited %d: %s" % (name, p.returncode, p.stderr.decode(errors="replace")[-160:])))
-                if not arg_error:
+                if not arg_error and not outcome.endswith("unwritable"):
                     lines.append("%d %d %d %d" % (1 if uses_prepare else 0, 1 if where == "root" else 0, 1 if body_ok else 0, 1 if outcome == "prelocked" else 0))
                     obs.append("exit=%d lock=%d" % (0 if p.returncode == 0 else 1, 1 if left else 0))
                     descr.append(name)
